@@ -81,6 +81,7 @@ type Op struct {
 	NilO bool    `json:"nilo,omitempty"` // pass nil options
 	Re   string  `json:"re,omitempty"`
 	Fill bool    `json:"fill,omitempty"` // value is resized to fill the active segment exactly
+	Nil  bool    `json:"nil,omitempty"`  // empty byte-slice arguments are passed as nil
 	// FNaN encodes non-finite floats for JSON: 1 NaN, 2 +Inf, 3 -Inf (applied to F), same *10 for F2.
 	FNaN int `json:"fnan,omitempty"`
 }
